@@ -582,6 +582,14 @@ func (sr *srcRun) judge(route, def, text string, wantValues int, rd *readerSpec,
 		}
 	}
 	long := maxLine >= refusalLimit
+	if st.wantSample {
+		outcome := "reported as loaded"
+		if err != nil {
+			outcome = "refused: " + err.Error()
+		}
+		smp, _ := st.sample.([]any)
+		st.sample = append(smp, map[string]any{"attempt": c, "outcome": outcome})
+	}
 	st.add("src_load_attempts", 1)
 	st.add("src_load_attempts:"+route, 1)
 	if long {
